@@ -655,6 +655,12 @@ pub(crate) async fn fashare(
         if dm_k[k].iter().any(|dm| dm.len() != 1 + (n - 1) * 16) {
             return Err(Error::InvalidLength);
         }
+        // The decommitment must open the commitment cm that was broadcast before.
+        for (r, dm) in dm_k[k].iter().enumerate() {
+            if !open_commitment(&c0_c1_cm_k[k][r].2, dm) {
+                return Err(Error::CommitmentCouldNotBeOpened);
+            }
+        }
     }
     dm_k[i] = dmvec;
 
